@@ -153,6 +153,36 @@ CHECKS = {
        "uncompressed fallback). Sortedness, dense inode numbering, index placement, reference resolution: not decided.",
   note="trusted: the table of exceptions ('would need 2^32 entries in memory' class) in sa/k7.py",
   technique="static analysis: provenance-based range proofs (guards, clamps, tag-mediated guards, bit widths) and return-value classification on LLVM IR"),
+ "C01": dict(
+  text="Fidelity of a packed image (tree in = tree out, identical contents) is value-level and NOT decided. Decided are "
+       "structural necessary conditions on LLVM IR of every unit: K7 'refused, not stored altered' (each implicit "
+       "truncation stored into an on-disk / image-visible field on the writer path is range-proven, covered by a re-"
+       "verified guard provider, or a reasoned exception), A1 tagged-union agreement (217 accesses to the inode union are "
+       "under a tag test naming a type that owns the accessed member; make_extended/make_basic conversions pair the right "
+       "members), K6-alloca (no input-sized stack allocation), K6-index (stores through caller-provided tables indexed by "
+       "a growing counter are bounded), K2-column (every non-uniform column of a constant keyword/handler table is read).",
+  note="trusted: exception tables in sa/k7.py and sa/props/c01.py, one reason per entry",
+  technique="static analysis: provenance-based range proofs, tag-dominance of union member accesses, constant-table column liveness on LLVM IR"),
+ "C04": dict(
+  text="Round-trip / fix-point equality of conversions is value-level and NOT decided. Decided structurally: validation "
+       "(magic, version, checksum) dominates every field decoder in read_header; PAX override mask reset with the header; "
+       "timestamps and ids narrowed only with a proven range or clamp (K7); truncated archives are errors in the archive "
+       "layer (T1/T2); writer well-formedness: header checksum computed after the last header store and before the "
+       "append, file data can return 0 only through padd_file(), sqfs2tar exits 0 only after end-of-archive blocks and "
+       "flush succeeded, SQFS_ERROR_UNSUPPORTED is distinguished; K12-layer: the hard-link filter wraps the name-"
+       "rewriting iterator; K12-sparse: is_sparse_region answers 'data' only with a covering extent or no map.",
+  note="trusted: K7 exception table; the list of header-writing helpers in sa/props/c04.py",
+  technique="static analysis: dominance / must-precede, return-source classification and provenance rules on LLVM IR"),
+ "C11": dict(
+  text="Byte equality of images under permuted readdir order is NOT decided (it quantifies over runs). Decided on LLVM IR: "
+       "A3-source -- every call that enumerates a host directory (readdir, scandir, glob, nftw, fts_read, getdents) lets "
+       "only copies of the names leave its loop, into an array that is sorted over its full length, with a comparator "
+       "whose result table over all orderings is an exact total order on whole names (one strcmp atom), before the "
+       "function can return success; otherwise the source is classified unordered. A3-pipeline -- constructor chains "
+       "(followed through out-parameters) never put the order-sensitive hard-link filter over an unordered host source. "
+       "Downstream order-normalisation rules are armed only while some source is unordered.",
+  note="trusted: classification table of iterator constructors in sa/props/c11.py; qsort sorts; dir_win32.c is not compiled here",
+  technique="static analysis: escape analysis of the host's directory entries, must-pass-through (sort dominates success), exhaustive abstract evaluation of the comparator, constructor-chain typestate on LLVM IR"),
 }
 
 NA_DEFAULT = "rules designed in DESIGN.md, not implemented yet (work in progress)"
